@@ -16,7 +16,7 @@
 (* One public call is one action; inside an action the code is sequential, so  *)
 (* a call is the composition of the functions below, each returning            *)
 (*   [ok |-> BOOLEAN, err |-> result 4-tuple, w |-> world].                    *)
-EXTENDS Integers, Sequences, FiniteSets
+EXTENDS Integers, Sequences, FiniteSets, TLC, Json
 
 CONSTANT OneShot     \* observers that detach themselves when notified (ExecutionSequence observers do)
 
@@ -28,7 +28,7 @@ Refused(cur, new) == new \in Guarded /\ cur # "DONE"
 
 None  == -1                           \* what a statistics getter returns while the statistics are disabled
 OkRes == <<"ok", "-", "-", "-">>
-R(ok, err, w) == [ok |-> ok, err |-> err, w |-> w]
+R(ok, err, w) == TLCEval([ok |-> ok, err |-> err, w |-> w])   \* forced: TLC's lazy values would re-run the call
 Ok(w) == R(TRUE, OkRes, w)
 
 \* execution_statistics.py:197-250: the getters return None while disabled, the stored value otherwise
